@@ -365,6 +365,9 @@ func (fv *FuncVerifier) evalFuncCall(fn *types.Func, call *ast.CallExpr, st *Sta
 	defer func() { fv.curCall = savedCall }()
 	key := funcKey(fn)
 	sig := fn.Type().(*types.Signature)
+	if fv.specMode == 0 && !fv.termMode && fv.frame().top && len(fv.spec.AtCalls[fn.Name()]) > 0 {
+		fv.checkAtCall(fn, call, st)
+	}
 	// specification helpers
 	if strings.HasPrefix(fn.Name(), "__") && fn.Pkg() != nil {
 		return fv.evalSpecHelper(fn, call, st)
@@ -403,12 +406,22 @@ func (fv *FuncVerifier) evalFuncCall(fn *types.Func, call *ast.CallExpr, st *Sta
 		}
 		if isIgnoredKey(key) {
 			fv.u.note("ignored call %s (no effect on modelled state)", key)
+			fv.evalReceiverChain(call, st)
 			for _, a := range call.Args {
 				if fv.hasEffects(a) {
 					fv.eval(a, st)
 				}
 			}
 			return fv.havocResults(sig.Results(), st)
+		}
+		if pc := fv.prog.contracts[fv.fd.pkg.PkgPath]; pc != nil && fn.Pkg() != nil {
+			for _, ip := range pc.IgnorePkgs {
+				if fn.Pkg().Path() == ip || strings.HasPrefix(fn.Pkg().Path(), ip+"/") {
+					fv.u.note("calls into %s are ignored here (opaque results, no modelled effect): %s", ip, key)
+					fv.evalReceiverChain(call, st)
+					return fv.havocResults(sig.Results(), st)
+				}
+			}
 		}
 		if fd := fv.prog.decls[key]; fd != nil && fd.decl.Body != nil && autoInlinable(fd.decl) && len(fv.frames) < 6 {
 			fv.u.note("helper %s has no contract: its body is executed at the call site (auto-inlined)", key)
@@ -436,6 +449,7 @@ func (fv *FuncVerifier) evalFuncCall(fn *types.Func, call *ast.CallExpr, st *Sta
 		return fv.inlineCall(fn, call, st)
 	case SKContract, SKTrusted:
 		args, wb := fv.receiverAndArgs(fn, call, st)
+		args = fv.packVariadic(fn, call, args)
 		r := fv.modularCall(fn, sp, args, st, call.Pos())
 		if wb != nil {
 			wb(st)
@@ -600,6 +614,94 @@ func (fv *FuncVerifier) evalSpecHelper(fn *types.Func, call *ast.CallExpr, st *S
 
 func errIs(e, target Term) Term {
 	return and(not(eq(e, Term{"0", sortInt})), mk(sortBool, "(= (err_root %s) (err_root %s))", e.S, target.S))
+}
+
+// evalReceiverChain: for an ignored call x.f(...).g(...), still visit the calls that
+// produce the receiver (they may carry atcall assertions or contracts).
+func (fv *FuncVerifier) evalReceiverChain(call *ast.CallExpr, st *State) {
+	se, ok := ast.Unparen(call.Fun).(*ast.SelectorExpr)
+	if !ok {
+		return
+	}
+	if inner, ok := ast.Unparen(se.X).(*ast.CallExpr); ok {
+		fv.evalCall(inner, st, true)
+	}
+}
+
+// packVariadic packs the trailing arguments of a variadic call into one slice term,
+// which is what contract wrappers expect.
+func (fv *FuncVerifier) packVariadic(fn *types.Func, call *ast.CallExpr, args []Term) []Term {
+	sig := fn.Type().(*types.Signature)
+	if !sig.Variadic() || call.Ellipsis.IsValid() {
+		return args
+	}
+	k := 0
+	if sig.Recv() != nil {
+		k = 1
+	}
+	fixed := k + sig.Params().Len() - 1
+	if len(args) < fixed {
+		return args
+	}
+	et := sig.Params().At(sig.Params().Len() - 1).Type().(*types.Slice).Elem()
+	es := fv.sortOf(et)
+	if es == nil {
+		return append(args[:fixed:fixed], Term{})
+	}
+	ss := fv.u.sliceSort(es)
+	arr := slArr(fv.u.zero(ss))
+	n := 0
+	for _, a := range args[fixed:] {
+		arr = store(arr, intT(int64(n)), a)
+		n++
+	}
+	return append(args[:fixed:fixed], slMk(ss, arr, intT(int64(n))))
+}
+
+// checkAtCall: the contract's assertions about the arguments of a call to fn.
+func (fv *FuncVerifier) checkAtCall(fn *types.Func, call *ast.CallExpr, st *State) {
+	sig := fn.Type().(*types.Signature)
+	argByName := map[string]Term{}
+	for i, a := range call.Args {
+		if i >= sig.Params().Len() {
+			break
+		}
+		p := sig.Params().At(i)
+		if p.Name() == "" || fv.sortOf(p.Type()) == nil {
+			continue
+		}
+		if _, isLit := ast.Unparen(a).(*ast.FuncLit); isLit {
+			continue
+		}
+		argByName[p.Name()] = fv.evalTo(a, p.Type(), st)
+	}
+	ord := fv.counter("atcall:" + fn.Name())
+	fr := fv.frame()
+	scope := fr.pkg.Types.Scope().Innermost(call.Pos())
+	for i, c := range fv.spec.AtCalls[fn.Name()] {
+		wfd := fv.prog.decls[fv.spec.PkgPath+"."+c.Wrapper]
+		if wfd == nil {
+			reject("atcall wrapper %s missing", c.Wrapper)
+		}
+		wsig := wfd.fn.Type().(*types.Signature)
+		vals := make([]Term, wsig.Params().Len())
+		for k := 0; k < wsig.Params().Len(); k++ {
+			name := wsig.Params().At(k).Name()
+			if scope != nil {
+				if _, obj := scope.LookupParent(name, call.Pos()); obj != nil {
+					if v, ok := st.vars[obj]; ok {
+						vals[k] = v
+						continue
+					}
+				}
+			}
+			if v, ok := argByName[name]; ok {
+				vals[k] = v
+			}
+		}
+		t := fv.evalWrapper(fv.spec.PkgPath, c.Wrapper, vals, st, fv.entry)
+		fv.oblige(st, "atcall", fmt.Sprintf("%s:%d:%d", fn.Name(), ord, i), t, call.Pos(), "at call to "+fn.Name()+": "+c.Text)
+	}
 }
 
 // staticRecvKey: for a method call x.M(...), the key pkg.T.M where T is the named
@@ -1262,6 +1364,11 @@ func (fv *FuncVerifier) modularCall(fn *types.Func, sp *FuncSpec, args []Term, s
 	if co := fv.cover(st, fmt.Sprintf("after:%s:%d", sp.Name, ord), boolT(true), "state after call to "+sp.Name+" is satisfiable"); co != nil {
 		co.AltSMT = beforeSMT
 	}
+	for _, c := range sp.Ensures {
+		if c.Trusted {
+			fv.trustedUsed[sp.Key+" (trusted_ensures: "+c.Text+")"] = true
+		}
+	}
 	if sp.Kind == SKTrusted {
 		fv.trustedUsed[sp.Key] = true
 	} else {
@@ -1312,6 +1419,10 @@ func (fv *FuncVerifier) checkPost(st *State, p token.Pos) {
 		vals = append(vals, st.vars[r])
 	}
 	for i, c := range fv.spec.Ensures {
+		if c.Trusted {
+			fv.u.note("trusted_ensures of %s is assumed for callers, not proved: %s", fv.name, c.Text)
+			continue
+		}
 		t := fv.evalWrapper(fv.spec.PkgPath, c.Wrapper, vals, st, fv.entry)
 		fv.curClause = c
 		fv.oblige(st, "post", fmt.Sprintf("%d:ret%d", i, ret), t, p, c.Text)
